@@ -51,6 +51,8 @@ BLOCKS = {
     # a lag chain declared after other lagged variables
     'lag-chain-after-other-lags': ("y = 0.5*LY + G\nx = 0.25*LC + y\nz = 0.5*L2X + 1\nLY = y(k-1)\nLC = z(k-1)\nLX = x(k-1)\nL2X = LX(k-1)\nErr_Tolerance = 0.01\nMaxTime = 2\n"
                                    "exogenous\nG = [1., 2., 3.]", 0.0, ['x', 'y', 'z'], ['G']),
+    # an exogenous scalar written as an expression; comment texts with a backslash escape and with a triple quote (they are copied into the module's docstring)
+    'scalar-expression-exogenous': ("x = 0.5*x + G + S  # see C:\\Users\\new \\u.txt\nErr_Tolerance = 0.01  # \"\"\" quoted\nMaxTime = 2\nexogenous\nG = [1., 2., 3.]\nS = 2*10.", 0.5, ['x'], ['G']),
     'static-user-time': ("x = 0.5*y + c\ny = 0.5*x + 1\nc = 2.0\nt = 2016.\nErr_Tolerance = 0.01\nMaxTime = 2", 0.5, ['x', 'y'], []),
 }
 
